@@ -458,7 +458,7 @@ def known_covers(prop, key, kf, fvcs, witness, mods, rep, bud):
 
 
 def write_replay(prop, key, name, fvcs, witness):
-    d = os.path.join(VERIF, "replays", prop)
+    d = os.path.join(os.environ.get("PYVC_REPLAY_DIR") or os.path.join(VERIF, "replays"), prop)
     os.makedirs(d, exist_ok=True)
     fn = name.replace("/", "_").replace("[", "_").replace("]", "").replace(":", "_").replace(" ", "")
     path = os.path.join(d, fn + ".json")
